@@ -329,8 +329,23 @@ func (m *MW) StepResolve() {
 		case 0:
 			m.User.PollMeltQuote(pm.Mint, pm.Q.ID)
 		case 1:
+			// the first request to notice the outcome is a state check
 			Ys := []string{pm.Ins[0].Y()}
-			m.User.CheckState(pm.Mint, Ys)
+			r := m.User.CheckState(pm.Mint, Ys)
+			if r.OK() && pm.Known {
+				if arr, _ := r.Body["states"].([]any); len(arr) == 1 {
+					st, _ := arr[0].(map[string]any)["state"].(string)
+					pay := m.W.LN.Payments[pm.Key]
+					m.rc.S.Probe("c15_resolve_via_checkstate")
+					if pay != nil {
+						final := map[payTruth]string{ptSucceeded: "SPENT", ptFailed: "UNSPENT"}[pay.Truth]
+						// the answer is the final state, or still PENDING if the backend answered ambiguously
+						if final != "" && st != final && !(st == "PENDING" && m.W.LN.Cfg.AmbiguousPct > 0) {
+							m.W.Book.Violate("C15.state_wrong", "resolve:"+final+"->"+st, "checkstate after the payment %s reports %s for the melt's input", pay.Truth, st)
+						}
+					}
+				}
+			}
 		case 2:
 			m.User.PollMeltQuote(pm.Mint, pm.Q.ID)
 			m.User.PollMeltQuote(pm.Mint, pm.Q.ID)
@@ -944,7 +959,7 @@ func (m *MW) StepAdversarial() {
 		m.StepFund()
 		return
 	}
-	mode := m.T.Choose("adv.mode", 8)
+	mode := m.T.Choose("adv.mode", 9)
 	m.rc.Op(fmt.Sprintf("adversarial%d", mode))
 	ks := m.W.ActiveKeyset(mint)
 	sum := SumH(ins)
@@ -990,6 +1005,22 @@ func (m *MW) StepAdversarial() {
 			if q, _ := a.ReqMeltQuote(mint, inv.Bolt11, 0); q != nil && q.Reserve+m.feeFor(mint, ins) > 0 {
 				a.Melt(mint, q.ID, ins)
 				m.rc.S.Probe("melt_without_reserve")
+			}
+			return
+		case 8: // partial (MPP) melt of an invoice of this very mint: would settle the whole mint quote for a fraction
+			q, _ := a.ReqMintQuote(mint, 64, false)
+			if q == nil {
+				return
+			}
+			lq, _ := a.ReqMeltQuote(mint, q.Request, 1000)
+			m.rc.S.Probe("adv_mpp_internal")
+			if lq != nil {
+				one := m.User.Take(mint, lq.Amount+lq.Reserve+m.feeFor(mint, ins))
+				if one != nil {
+					r2 := a.Melt(mint, lq.ID, one)
+					m.afterMelt(mint, lq, one, r2)
+					a.Mint(mint, q, m.W.NewOutputs(Split(64), ks.ID), "")
+				}
 			}
 			return
 		case 7: // the same output twice with different amounts
